@@ -2,7 +2,8 @@
 
 Tie: T + X.
   T  generate(): the LIVE `attempts_before_update` trigger (last CREATE TRIGGER in numeric migration order, the same map
-     harness/minisql/schema.py executes; batch/sql/067-add-real-time-billing.sql today) is parsed with the minisql parser and
+     harness/minisql/schema.py executes; batch/sql/124-attempts-before-update-timeout-after-reason.sql with fixes/C03.diff,
+     067-add-real-time-billing.sql before it) is parsed with the minisql parser and
      translated by harness/translate/sql_trigger.py into coq/generated/C03/ClampGen.v (`gen_clamp`, over `option Z` columns with SQL
      three-valued logic).  BatchDB/ClampTie.v proves `gen_clamp o n = clamp4 o n` for ALL rows — clamp4 is the clamp the frozen
      database model applies in every `UPDATE attempts` — so a semantic edit of the trigger breaks a proof obligation.
@@ -33,20 +34,27 @@ META = dict(
               'definition (exhaustive small scope), and the callers are covered by the family correspondence',
     level_text='Machine-checked theorems (Coq 8.16, closed under the global context) over ALL finite sequences of update requests of the '
                'four shapes the service issues (creating/started report, complete report, unschedule/deactivation, billing heartbeat; any '
-               'times, any reasons, any order and multiplicity) applied to a fresh attempt row through the clamp of the live trigger: billed '
+               'times, any reasons, any order and multiplicity) applied to a fresh attempt row through the clamp of the live trigger '
+               '(attempts_before_update as re-created by migration 124, activation-timeout block after the end/reason block): billed '
                'time max(rollup-start,0) is never negative; once the attempt has an end, billed <= max(end-start,0), rollup <= end, and end '
-               'time and end reason are set together; a report that marks an activation timeout bills nothing; once an attempt has an end '
-               'reason every later report leaves a reason and can only replace the end time with an earlier one. PARTIAL: "billed time never '
-               'decreases unless the report marks an activation timeout or leaves the attempt with an end before the time already billed" '
-               'and "the start only moves earlier (or is erased by a report marking an activation timeout)" are proved for attempts whose stored '
-               'reason is not activation_timeout; without that guard both are REFUTED (C03_monotone_refuted / C03_start_only_earlier_refuted, '
-               'concrete sequence, replayed on the real SQL by the oracle: open finding).',
+               'time and end reason are set together; an attempt whose reason is activation_timeout has no start and bills nothing, whatever '
+               'is reported before or after; across EVERY report billed time does not decrease unless the report marks an activation '
+               'timeout (carries that reason and the row carries it afterwards) or leaves the attempt with an end before the time already '
+               'billed; the start only moves earlier and only a report that marks an activation timeout erases it; once an attempt has an end '
+               'reason every later report leaves a reason and keeps end time and reason exactly unless it replaces the end by a strictly '
+               'earlier one. All statements are unguarded (the former guard "stored reason is not activation_timeout" is gone with the '
+               'fix); C03_unfixed_trigger_refuted keeps the counterexample for the block order of migration 067 (Clamp.clamp4_unfixed) as '
+               'the regression witness.',
     level_note='Trusted: Coq kernel; harness/translate/sql_trigger.py + the minisql parser (trigger text -> Gallina), cross-checked against the '
                'minisql evaluator on 36 864 (OLD, NEW) pairs; the interning of reason strings as integers; that the service updates the four '
                'columns only through the four request shapes (Clamp.v request; the model callers are proved to be of these shapes in '
-               'ClampTie.v and the model is tied to the handlers by the family correspondence). "corrects the end to an earlier time" is read '
-               'as: the report leaves the attempt with an end time before the rollup time already billed.',
-    partial=True,
+               'ClampSeq.v and the model is tied to the handlers by the family correspondence). "corrects the end to an earlier time" is read '
+               'as: the report leaves the attempt with an end time before the rollup time already billed; "marks an activation timeout" as: '
+               'the request carries the reason activation_timeout and the row carries it after the report (a timeout request that arrives '
+               'after the attempt has ended, with an end that is not earlier, is ignored like every other late end report and changes neither '
+               'start nor billed time). The model and the proofs target the trigger of migration 124 (fixes/C03.diff); on a tree without it '
+               'the tie proof ClampTie.gen_clamp_eq fails and the oracle replays corpus/C03/activation-timeout-late-complete.json.',
+    partial=False,
 )
 TRUSTED = family.COMMON_TRUSTED + [
     'translator harness/translate/sql_trigger.py and the minisql lexer/parser (live trigger text -> Gallina with SQL three-valued logic; fail closed outside '
